@@ -103,6 +103,9 @@ func classifyPanic(p any, stack string) string {
 			if s.id == fXpathNonNodeSet && !strings.Contains(fmt.Sprint(p), "interface conversion") {
 				continue
 			}
+			if s.id == fNullItem && !strings.Contains(fmt.Sprint(p), "nil pointer dereference") {
+				continue
+			}
 			return s.id
 		}
 	}
@@ -144,23 +147,36 @@ func guard(what string, f func() error) (err error) {
 type errHang struct {
 	what   string
 	stacks string
+	after  time.Duration
 }
 
 func (e *errHang) Error() string {
-	return fmt.Sprintf("%s did not return within %v", e.what, hangDeadline)
+	d := e.after
+	if d == 0 {
+		d = hangDeadline
+	}
+	return fmt.Sprintf("%s did not return within %v", e.what, d)
 }
 
 // bounded runs f (already guarded by the caller where needed) in its own goroutine
 // and gives up after hangDeadline; the context is cancelled then, so that a
 // cooperative f stops. The goroutine of an uncooperative f is abandoned.
 func bounded(what string, f func(ctx context.Context) error) error {
+	return boundedFor(hangDeadline, what, f)
+}
+
+// outerDeadline bounds a whole case whose parts (provider drain) have deadlines of
+// their own, so that the more specific inner verdict comes first.
+const outerDeadline = 4 * hangDeadline
+
+func boundedFor(d time.Duration, what string, f func(ctx context.Context) error) error {
 	ctx, cancel := context.WithCancel(context.Background())
 	defer cancel()
 	done := make(chan error, 1)
 	go func() {
 		done <- guard(what, func() error { return f(ctx) })
 	}()
-	tm := time.NewTimer(hangDeadline)
+	tm := time.NewTimer(d)
 	defer tm.Stop()
 	select {
 	case err := <-done:
@@ -168,7 +184,7 @@ func bounded(what string, f func(ctx context.Context) error) error {
 	case <-tm.C:
 		buf := make([]byte, 1<<20)
 		n := runtime.Stack(buf, true)
-		return &errHang{what: what, stacks: string(buf[:n])}
+		return &errHang{what: what, stacks: string(buf[:n]), after: d}
 	}
 }
 
@@ -487,16 +503,21 @@ func genRawBytes(t *rapid.T, alphabet string) []byte {
 
 // absurd numbers make a worker die of memory exhaustion when a decoder trusts them,
 // which the driver cannot attribute to a case. canary returns the same input with
-// every number of ten or more digits replaced by 2^30: if the code allocates what
-// the number says, the allocation meter reports the probe (a hostile input in its
-// own right) cleanly, and the absurd original is not run.
-var absurdRun = regexp.MustCompile(`[0-9]{10,}`)
+// every number of nine or more digits replaced by 3e8 (the headroom of a worker
+// under ulimit -v 4 GB is about 1 GB): if the code allocates what the number says,
+// the allocation meter reports the probe (a hostile input in its own right) cleanly,
+// and the absurd original is not run.
+var absurdRun = regexp.MustCompile(`[0-9]{9,}`)
 
-func canary(data []byte) ([]byte, bool) {
+const canaryBytes = "300000000"
+
+func canary(data []byte) ([]byte, bool) { return canaryWith(data, canaryBytes) }
+
+func canaryWith(data []byte, repl string) ([]byte, bool) {
 	if !absurdRun.Match(data) {
 		return nil, false
 	}
-	return absurdRun.ReplaceAll(data, []byte("1073741824")), true
+	return absurdRun.ReplaceAll(data, []byte(repl)), true
 }
 
 // ---------------------------------------------------------------------------
